@@ -62,8 +62,11 @@ def run(ctx):
         chosen = classes
     else:
         side = [c for c in classes if c["target"] == "sidecar"]
-        rest = [c for c in classes if c["target"] != "sidecar"]
-        chosen = side + rng.sample(rest, 700)
+        # every posting list (content and file names) with the continuation bit of its last byte flipped
+        items = [c for c in classes if c["part"] == "items"]
+        always = [c for c in items if c["section"] in ("postings", "namePostings") and c["pos"] == "each-last" and c["mut"] == "flip7"]
+        rest = [c for c in classes if c["target"] != "sidecar" and c not in always]
+        chosen = side + always + rng.sample(rest, 700)
     ctx.log("fault classes from TLC: %d, executed: %d" % (len(classes), len(chosen)))
     inp = ctx.path("model.json")
     with open(inp, "w") as fh:
